@@ -236,6 +236,7 @@ class RpcMultiNode(RpcNode):
 
     def request(self, method: str, path: str, **kwargs) -> requests.Response:
         assert self._next_i < len(self.nodes)
-        res = self.nodes[self._next_i].request(method, path, **kwargs)
+        node = self.nodes[self._next_i]
+        # rotate before the request so that a failing node is not hit again by the next request
         self._next_i = (self._next_i + 1) % len(self.nodes)
-        return res
+        return node.request(method, path, **kwargs)
